@@ -14,6 +14,20 @@ CHECKS = {
             "program); the claim over the program space is sampling (shape catalogue + random programs).",
             "Trusts vf/esast.py (reference semantics from docs/language_spec.rst), vf/lts.py (SSB machine), CPython.",
             "DESIGN.md 3/C01"),
+    "C03": ("exploration",
+            "runtime monitoring: icontract post-condition (K-COMPILE) on the real compile methods over generated and hostile inputs",
+            "The closedness post-condition is evaluated by a contract on ExplorerScriptSsbCompiler.compile and "
+            "SsbScriptSsbCompiler.compile on every successful compilation of the workload (G-EXPS, its SsbScript "
+            "spelling, degenerate / corrupted / token-soup inputs that happen to be accepted). Sampling of the input space.",
+            "Trusts the own jump-kind table in vf/lts.py and icontract.",
+            "DESIGN.md 3/C03"),
+    "C10": ("exploration",
+            "runtime monitoring: exception classifier wrapped around the real compile methods + acceptance monitor over G-INVALID",
+            "Every compile call of the workload runs under a wrapper that classifies the exit (return / documented "
+            "exception / anything else); inputs with one injected static violation must not return. Sampling: one "
+            "injection per kind per generated program, degenerate catalogue, corruptions, token soup, import layouts on disk.",
+            "An injected program counts as meaningless only if the independent reference semantics rejects it as well.",
+            "DESIGN.md 3/C10"),
 }
 
 NOT_YET = {
